@@ -104,7 +104,7 @@ Definition check_case (c : case) : nat :=
       else if ~~ oclose (fun a b : seq fmat => size a == size b) (o_tmat o) tm then 4
       else if c_level c == 0 then 0
       else if o_warn o != warn then 5
-      else if ~~ (if winfo is Some (k, m) then (k == o_iters o) && close1 (PrimFloat.mul tol (fmax (fmax (PrimFloat.abs m) (PrimFloat.abs (o_mean o))) (fmax one (vmaxabs (rnorm_ (num_ (u_s0 u)))))) m (o_mean o) else true) then 6
+      else if ~~ (if winfo is Some (k, m) then (k == o_iters o) && close1 (PrimFloat.mul tol (fmax (fmax (PrimFloat.abs m) (PrimFloat.abs (o_mean o))) (fmax one (vmaxabs (rnorm_ (num_ (u_s0 u))))))) m (o_mean o) else true) then 6
       else if ~~ (if mmc is Some L then
                     lclose tol (u_x0 u :: [seq p_ (num_ s) | s <- take (size tr) (u_s0 u :: tr)]) L
                   else true) then 7
